@@ -9,16 +9,22 @@ Quantification: every configuration (`Cfg`: source dir, prefix dir, path mapping
 keep-only glob sets, ignore-not-existing, filter), every file system (`FS`), every result map
 (any keys, any coverage data).
 
-One clause of the property is FALSE of the current code and carries a proved negation, a closed
-witness (replayed on the real code by harness/c11) and a `…_partial` theorem:
-* normal form — a path-mapping *value* that contains backslashes reaches the report with its
-  backslashes turned into separators after normalisation (finding C11-mapping-backslash).
-"Relative to the source directory" was false before fix 52345c0 (an absolute path reaching the
-source dir through `..` behind a missing directory was reported absolute); it is now proved at full
-strength and its old witness is a corpus case.
+Two clauses were false of earlier versions of the code and are now proved at full strength; their
+old witnesses are corpus cases (corpus/C11):
+* normal form — before fix 568afd2 a path-mapping *value* that contains backslashes reached the
+  report with its backslashes turned into separators AFTER normalisation, so `x\..\y.c` was
+  reported as `x/../y.c` (former finding C11-mapping-backslash). The replacement now happens right
+  after `get_abs_path` and the path is normalised again (`Rewrite.finalRel`); the filters run on,
+  and the report carries, that final path.
+* "relative to the source directory" — before fix 52345c0 an absolute path reaching the source dir
+  through `..` behind a missing directory was reported absolute.
+Part `Partial` (Props/C11Partial.lean, imported below) puts the Java/Kotlin lookup inside and
+carries the one clause that is false of the current code (finding
+C11-partial-path-ignore-prunes-candidates).
 -/
 import GrcovModel.Lemmas.Rewrite
 import GrcovModel.Props.C11Partial
+import GrcovModel.Props.C11Main
 namespace Grcov.Props.C11
 open Grcov Grcov.UPath Grcov.Glob Grcov.Rewrite
 
@@ -32,7 +38,8 @@ theorem C11_report_members (cfg : Cfg) (fs : FS) (m : List (Bytes × Cov)) (rep 
 
 /-- A key is reported iff its rewritten relative path matches no ignore glob, matches some
 keep-only glob when any is given, exists on disk when ignore-not-existing is set, and has the
-requested covered/uncovered status; the record then carries the rewritten paths and the key's own
+requested covered/uncovered status; the record then carries exactly that path — the one the globs
+were matched against, also for keys and mapping values spelled with backslashes — and the key's own
 data. (`resolveKey` is the path part of the pipeline; it does not look at the filters.) -/
 theorem C11_selection_iff (cfg : Cfg) (fs : FS) (kc : Bytes × Cov) (r : Rec) :
     rewriteKey cfg fs kc = .ok (some r) ↔
@@ -41,7 +48,7 @@ theorem C11_selection_iff (cfg : Cfg) (fs : FS) (kc : Bytes × Cov) (r : Rec) :
         (cfg.keep = [] ∨ setMatch cfg.keep rel = true) ∧
         (cfg.ignoreNotExisting = true → fs.exists abs = true) ∧
         filterOk cfg.filter kc.2 = true ∧
-        r = ⟨abs, bsl rel, kc.2⟩ := by
+        r = ⟨abs, rel, kc.2⟩ := by
   rw [rewriteKey_some_iff]
   constructor
   · rintro ⟨a, rl, h1, h2⟩; exact ⟨a, rl, h1, (selectRec_some_iff _ _ _ _ _ _).1 h2⟩
@@ -136,48 +143,48 @@ theorem C11_normal_form_segments (r : Bytes) (h : NormalForm r) :
       simp only [render, Bool.false_eq_true, if_false, List.nil_append, hsp]
       simpa using hreal
 
-/-- Full statement: every reported relative path is in normal form. FALSE of the code. -/
+/-- Full statement: every reported relative path is in normal form. -/
 def C11_normal_form_stmt : Prop :=
   ∀ (cfg : Cfg) (fs : FS) (kc : Bytes × Cov) (r : Rec),
     rewriteKey cfg fs kc = .ok (some r) → NormalForm r.rel
 
-/-- Witness: the mapping `{"a.c": "x\..\y.c"}` sends key `a.c` to the report as `x/../y.c`
-(the backslashes become separators only after `normalize_path` has run). -/
-theorem C11_normal_form_false : ¬ C11_normal_form_stmt := by
-  intro h
-  have hw : rewriteKey { mapping := some [([97, 46, 99], [120, 92, 46, 46, 92, 121, 46, 99])] }
-      ⟨[], [], []⟩ ([97, 46, 99], {})
-      = .ok (some ⟨[120, 92, 46, 46, 92, 121, 46, 99], [120, 47, 46, 46, 47, 121, 46, 99], {}⟩) := by
-    decide
-  obtain ⟨np, e, hreal⟩ := h _ _ _ _ hw
-  have hn := normalizePath_render hreal
-  rw [← e] at hn
-  revert hn
-  decide
-
-/-- The path that is matched against the globs is always in normal form; the reported path is that
-path with backslashes turned into '/', so it is in normal form whenever no backslash survives in
-the resolved path (guard; true whenever the mapping values, the source dir and the file names on
-disk contain none — backslashes in *keys* are replaced before anything else). -/
-theorem C11_normal_form_partial (cfg : Cfg) (fs : FS) (kc : Bytes × Cov) (r : Rec)
-    (h : rewriteKey cfg fs kc = .ok (some r)) :
-    ∃ abs rel0, resolveKey cfg fs kc.1 = .ok (some (abs, rel0)) ∧ NormalForm rel0 ∧
-      r.rel = bsl rel0 ∧ (92 ∉ rel0 → NormalForm r.rel) := by
+/-- Every reported relative path is in normal form, for every configuration, file system and key —
+backslashed keys and mapping values included (since fix 568afd2; before it the mapping
+`{"a.c": "x\..\y.c"}` put `x/../y.c` into the report). -/
+theorem C11_normal_form : C11_normal_form_stmt := by
+  intro cfg fs kc r h
   obtain ⟨a, rl, h1, _, _, _, _, e⟩ := (C11_selection_iff cfg fs kc r).1 h
-  obtain ⟨ac, _, _, hn⟩ := (getAbsPath_some_iff _ _ _ _ _).1 (resolveKey_some h1)
-  obtain ⟨np, enp, hreal, _⟩ := normalizePath_shape hn
-  refine ⟨a, rl, h1, ⟨np, enp, hreal⟩, by rw [e], ?_⟩
-  intro hb
+  obtain ⟨r0, _, hf⟩ := resolveKey_some h1
   rw [e]
-  show NormalForm (bsl rl)
-  rw [bsl_id hb]
-  exact ⟨np, enp, hreal⟩
+  exact (finalRel_shape hf).1
+
+/-- Reported relative paths use '/' only: no backslash survives, whatever the key, the mapping
+values, the source dir or the names on disk contain. -/
+theorem C11_no_backslash (cfg : Cfg) (fs : FS) (kc : Bytes × Cov) (r : Rec)
+    (h : rewriteKey cfg fs kc = .ok (some r)) : 92 ∉ r.rel := by
+  obtain ⟨a, rl, h1, _, _, _, _, e⟩ := (C11_selection_iff cfg fs kc r).1 h
+  obtain ⟨r0, _, hf⟩ := resolveKey_some h1
+  rw [e]
+  exact (finalRel_shape hf).2
+
+/-- The reported path is the final form — backslashes to '/', normalised again — of the relative
+path `get_abs_path` returns, and the globs are matched against that same final path. -/
+theorem C11_reported_is_final (cfg : Cfg) (fs : FS) (kc : Bytes × Cov) (r : Rec)
+    (h : rewriteKey cfg fs kc = .ok (some r)) :
+    ∃ r0, getAbsPath fs cfg.sourceDir (keyPath cfg kc.1) = .ok (some (r.abs, r0)) ∧
+      normalizePath (bsl r0) = some r.rel ∧ setMatch cfg.ignore r.rel = false ∧
+      (cfg.keep = [] ∨ setMatch cfg.keep r.rel = true) := by
+  obtain ⟨a, rl, h1, h2, h3, _, _, e⟩ := (C11_selection_iff cfg fs kc r).1 h
+  obtain ⟨r0, hg, hf⟩ := resolveKey_some h1
+  subst e
+  exact ⟨r0, hg, hf, h2, h3⟩
 
 /-- The reported absolute path is in normal form, always. -/
 theorem C11_abs_normal_form (cfg : Cfg) (fs : FS) (kc : Bytes × Cov) (r : Rec)
     (h : rewriteKey cfg fs kc = .ok (some r)) : NormalForm r.abs := by
   obtain ⟨a, rl, h1, _, _, _, _, e⟩ := (C11_selection_iff cfg fs kc r).1 h
-  obtain ⟨ac, _, hn, _⟩ := (getAbsPath_some_iff _ _ _ _ _).1 (resolveKey_some h1)
+  obtain ⟨r0, hg, _⟩ := resolveKey_some h1
+  obtain ⟨ac, _, hn, _⟩ := (getAbsPath_some_iff _ _ _ _ _).1 hg
   obtain ⟨np, enp, hreal, _⟩ := normalizePath_shape hn
   rw [e]; exact ⟨np, enp, hreal⟩
 
@@ -189,45 +196,77 @@ theorem C11_escape_dropped (p : Bytes) :
   normalizePath_none_iff p
 
 /-- … and such a path is dropped, not reported: whatever the configuration, a key whose path after
-mapping, prefix removal and source-dir fix-up escapes through ".." yields no record. -/
+mapping, prefix removal and source-dir fix-up escapes through ".." yields no record — before the
+backslashes are replaced, and after. -/
 theorem C11_escape_not_reported (cfg : Cfg) (fs : FS) (kc : Bytes × Cov) (r : Rec)
     (h : rewriteKey cfg fs kc = .ok (some r)) :
-    ∃ ac, absCanon fs cfg.sourceDir (keyPath cfg kc.1) = some ac ∧
+    ∃ ac r0, absCanon fs cfg.sourceDir (keyPath cfg kc.1) = some ac ∧
       normalizePath ac ≠ none ∧
-      normalizePath (fixupRelPath cfg.sourceDir ac (keyPath cfg kc.1)) ≠ none := by
+      normalizePath (fixupRelPath cfg.sourceDir ac (keyPath cfg kc.1)) = some r0 ∧
+      normalizePath (bsl r0) ≠ none := by
   obtain ⟨a, rl, h1, _⟩ := (C11_selection_iff cfg fs kc r).1 h
-  obtain ⟨ac, h2, h3, h4⟩ := (getAbsPath_some_iff _ _ _ _ _).1 (resolveKey_some h1)
-  exact ⟨ac, h2, by simp [h3], by simp [h4]⟩
+  obtain ⟨r0, hg, hf⟩ := resolveKey_some h1
+  obtain ⟨ac, h2, h3, h4⟩ := (getAbsPath_some_iff _ _ _ _ _).1 hg
+  exact ⟨ac, r0, h2, by simp [h3], h4, by unfold finalRel at hf; simp [hf]⟩
 
 /-! ### prefix and source directory -/
 
 /-- Without a source dir: when the (mapped) key lies under the prefix dir, its components are those
 of the prefix followed by those of the remainder, and the path used from there on — matched
-against the globs and reported — is the normal form of that remainder. -/
+against the globs and reported — is the final form (backslashes to '/', normalised again) of the
+normal form of that remainder. -/
 theorem C11_prefix_removed (cfg : Cfg) (fs : FS) (key pre t abs rel : Bytes)
     (hS : cfg.sourceDir = none) (hP : cfg.prefixDir = some pre) (hpre : components pre ≠ [])
     (hstrip : stripPrefix (applyMapping cfg.mapping (bsl key)) pre = some t)
     (h : resolveKey cfg fs key = .ok (some (abs, rel))) :
     components (applyMapping cfg.mapping (bsl key)) = components pre ++ components t ∧
-      normalizePath t = some rel := by
+      ∃ r0, normalizePath t = some r0 ∧ normalizePath (bsl r0) = some rel := by
   refine ⟨stripPrefix_components hstrip hpre, ?_⟩
-  obtain ⟨ac, _, _, hn⟩ := (getAbsPath_some_iff _ _ _ _ _).1 (resolveKey_some h)
-  simpa [keyPath, hP, removePrefix, hstrip, hS, fixupRelPath] using hn
+  obtain ⟨r0, hg, hf⟩ := resolveKey_some h
+  obtain ⟨ac, _, _, hn⟩ := (getAbsPath_some_iff _ _ _ _ _).1 hg
+  exact ⟨r0, by simpa [keyPath, hP, removePrefix, hstrip, hS, fixupRelPath] using hn, hf⟩
+
+/-- Full statement: with a clean absolute source dir `S`, a reported file whose absolute path lies
+under `S` is reported under exactly the path that stripping `S` from the absolute path leaves.
+FALSE of the code for names that contain a backslash (finding C11-backslash-name-abs-rel-differ). -/
+def C11_relative_under_source_dir_stmt : Prop :=
+  ∀ (cfg : Cfg) (fs : FS) (key : Bytes) (sn : List Bytes) (abs rel : Bytes),
+    (∀ n ∈ sn, RealName n) → cfg.sourceDir = some (render ⟨true, sn⟩) →
+    resolveKey cfg fs key = .ok (some (abs, rel)) → startsWith abs (render ⟨true, sn⟩) = true →
+    stripPrefix abs (render ⟨true, sn⟩) = some rel
+
+/-- Witness: source dir `/s`, mapping `{"a.c": "foo\bar.c"}` (a Windows-style value on Unix), nothing
+on disk. Key `a.c` is reported with the absolute path `/s/foo\bar.c` — one component below `/s`,
+backslash kept — and the relative path `foo/bar.c`: the two no longer name the same file (only the
+relative path has its backslashes turned into separators; if `/s/foo/bar.c` exists, the absolute
+path still points at the non-existing `/s/foo\bar.c`). -/
+theorem C11_relative_under_source_dir_false : ¬ C11_relative_under_source_dir_stmt := by
+  intro h
+  have hw : resolveKey { sourceDir := some [47, 115]
+                         mapping := some [([97, 46, 99], [102, 111, 111, 92, 98, 97, 114, 46, 99])] }
+      ⟨[], [], []⟩ [97, 46, 99]
+      = .ok (some ([47, 115, 47, 102, 111, 111, 92, 98, 97, 114, 46, 99],
+                   [102, 111, 111, 47, 98, 97, 114, 46, 99])) := by decide
+  have := h _ _ _ [[115]] _ _ (by decide) rfl hw (by decide)
+  revert this
+  decide
 
 /-- With a clean absolute source dir `S` (what `main` passes: the canonicalised `--source-dir`),
-every reported file whose absolute path lies under `S` is reported relative to `S`: the record is
-(`S/rel`, `rel`) with `rel` relative and in normal form, and `rel` is exactly what stripping `S`
-from the reported absolute path leaves. Full strength on the model, for every file system, key,
-prefix and mapping. (Before fix 52345c0 this was false for `/x/../s/a.c` with `x` missing:
+every reported file whose absolute path lies under `S` is reported relative to `S`: the absolute
+path is `S/names`, stripping `S` from it leaves `names`, and the reported relative path is the
+final form of `names` — `names` itself under the guard the witness violates: no name below `S`
+contains a backslash. For every file system, key, prefix and mapping. (Before fix 52345c0 this was false for `/x/../s/a.c` with `x` missing:
 finding C11-dotdot-not-relativised, now a corpus case. Symlinks are outside the model: the file
 system parameter has none, so "lies under" is about the path `canonicalize` returns.) -/
-theorem C11_relative_under_source_dir (cfg : Cfg) (fs : FS) (key : Bytes) (sn : List Bytes)
+theorem C11_relative_under_source_dir_partial (cfg : Cfg) (fs : FS) (key : Bytes) (sn : List Bytes)
     (abs rel : Bytes) (hsn : ∀ n ∈ sn, RealName n)
     (hS : cfg.sourceDir = some (render ⟨true, sn⟩))
     (h : resolveKey cfg fs key = .ok (some (abs, rel)))
     (hunder : startsWith abs (render ⟨true, sn⟩) = true) :
-    ∃ names, (∀ n ∈ names, RealName n) ∧ rel = render ⟨false, names⟩ ∧
-      abs = render ⟨true, sn ++ names⟩ ∧ stripPrefix abs (render ⟨true, sn⟩) = some rel :=
+    ∃ names, (∀ n ∈ names, RealName n) ∧ abs = render ⟨true, sn ++ names⟩ ∧
+      stripPrefix abs (render ⟨true, sn⟩) = some (render ⟨false, names⟩) ∧
+      normalizePath (bsl (render ⟨false, names⟩)) = some rel ∧
+      ((∀ n ∈ names, 92 ∉ n) → rel = render ⟨false, names⟩) :=
   relative_under_source hsn hS h hunder
 
 /-- the former witness: source dir `/s`, nothing on disk, key `/x/../s/a.c` is now reported as
@@ -299,5 +338,14 @@ example : ∃ rep, rewritePaths { exCfg with ignore := [], filter := none } exFS
 
 example : NormalForm [102, 111, 111, 47, 98, 97, 114, 46, 99] :=
   ⟨⟨false, [[102, 111, 111], [98, 97, 114, 46, 99]]⟩, by decide, by decide⟩
+
+/-- the former witness of C11-mapping-backslash: the mapping `{"a.c": "x\..\y.c"}` now reports
+key `a.c` as `y.c`; with one more `..` (`x\..\..\y.c`) the path escapes and the key is dropped -/
+example : rewriteKey { mapping := some [([97, 46, 99], [120, 92, 46, 46, 92, 121, 46, 99])] }
+      ⟨[], [], []⟩ ([97, 46, 99], {})
+    = .ok (some ⟨[120, 92, 46, 46, 92, 121, 46, 99], [121, 46, 99], {}⟩) := by decide
+
+example : rewriteKey { mapping := some [([97, 46, 99], [120, 92, 46, 46, 92, 46, 46, 92, 121, 46, 99])] }
+      ⟨[], [], []⟩ ([97, 46, 99], {}) = .ok none := by decide
 
 end Grcov.Props.C11
